@@ -260,19 +260,19 @@ def run(ctx):
                 new_fail.append((c, f))
     # the assumption of the theorems (query index) broken by the implementation's environment: the recorded finding
     for c, a in break_cases:
-        kf = vlib.match_known(PROP, {"kind": "assumption-break", "cause": "query-index-behind-content", "scope": "service-health"})
+        kf = vlib.match_known(PROP, {"kind": "assumption-break", "cause": "query-index-behind-content", "scope": "service-health-connect"})
         if kf:
             known_counts["assumption-break:query-index-behind-content"] += 1
             ctx.known(kf, "assumption-break cause=query-index-behind-content: " + kf["what"])
         else:
-            new_fail.append((c, {"kind": "assumption-break", "cause": "query-index-behind-content", "scope": "service-health", "step": -1, "c": -1,
+            new_fail.append((c, {"kind": "assumption-break", "cause": "query-index-behind-content", "scope": "service-health-connect", "step": -1, "c": -1,
                                  "msg": "the index a query reported does not cover a commit that touched its subject"}))
 
     # any other broken clause of step_ok (query index ahead of the raft index, an understated index on a
     # config-entry topic, a restored store with two rows for one key) is not a recorded finding
     for c in other_cases:
         new_fail.append((c, {"kind": "assumption-break", "cause": "step-ok-other-clause", "scope": "", "step": -1, "c": -1,
-                             "msg": "a query index ahead of the raft index, or behind a commit of its subject outside the service-health topics, or a restored store with a duplicate key"}))
+                             "msg": "a query index ahead of the raft index, or behind a commit of its subject outside the connect health topic, or a restored store with a duplicate key"}))
 
     # Raft indexes not strictly increasing / above 1: only the corpus case that declares it (idx0) may do that
     for c in raft_cases:
@@ -327,6 +327,7 @@ def run(ctx):
     writes = collections.Counter()
     gens = collections.Counter(c["gen"].split(":")[0] for c in cases)
     paths = collections.Counter()
+    pubpaths = collections.Counter()
     nsteps = 0
     sigs = set()
     for c in cases:
@@ -338,6 +339,7 @@ def run(ctx):
                 writes[s["w"]["k"] + ("" if s.get("queued") else "(rejected)")] += 1
             if s["op"] == "sub":
                 first[s["c"]] = s
+                pubpaths[s.get("path", "build")] += 1
                 if s.get("err"):
                     paths["error(unsupported wildcard)"] += 1
                 elif s.get("qlen", 0) > 0:
@@ -360,11 +362,11 @@ def run(ctx):
     cov.update({
         "evaluations": len(cases),
         "distinct_nontrivial": len(sigs),
-        "rule": "schedules of 10-32 steps (+ drain to quiescence) over 2 nodes, 6 service ids (plain, connect-native, connect-proxy, renamed), node and service checks, service-defaults config entries, ACL tokens/policies/role, KV noise; 8 subjects (health web/api/db, connect web/api, service-defaults web/api/wildcard); flavours mixed, gap (bursts of commits then a subscription), eager (publish after every commit), restore, restorebuf (several subscribers share a subject across a restore), acl, malformed (rejected writes, unknown clients, unsupported wildcard) and the corpus of minimised findings; distinct_nontrivial = distinct input schedules, every one executed on the real store+publisher+materializer, evaluated by the model in Coq step by step (every Next outcome, index, whole view; every query result after every commit) and by the direct oracle",
+        "rule": "schedules of 10-32 steps (+ drain to quiescence) over 2 nodes, 6 service ids (plain, connect-native, connect-proxy, renamed), node and service checks, service-defaults config entries, ACL tokens/policies/role, KV noise; 8 subjects (health web/api/db, connect web/api, service-defaults web/api/wildcard); combined node+service registrations and transactions; flavours mixed, gap (bursts of commits then a subscription), eager (publish after every commit), restore (restored content may carry ACL rows), restorebuf (several subscribers share a subject across a restore), resume (resubscribe at the held index), acl, malformed (rejected writes, unknown clients, unsupported wildcard) and the corpus of minimised findings; distinct_nontrivial = distinct input schedules, every one executed on the real store+publisher+materializer, evaluated by the model in Coq step by step (every Next outcome, index, whole view; every query result after every commit; the path every Subscribe takes inside the publisher: error, resume from the topic buffer, cached snapshot, built snapshot) and by the direct oracle (which applies the delivered events itself, and computes the set of subscriptions an ACL write must close independently of the model)",
         "traces_validated_against_impl": len(cases) - len(mism),
         "steps_executed": nsteps,
         "model_mismatches": len(mism),
-        "assumption_breaks_observed": {"query_index_behind_on_service_health_topics": breaks_step,
+        "assumption_breaks_observed": {"query_index_behind_on_connect_topic": breaks_step,
                                        "raft_index_in_declared_floor_case": breaks_raft, "other_clause": breaks_other},
         "oracle_only_cases": oracle_only,
         "oracle_failures_known": dict(known_counts),
@@ -374,6 +376,7 @@ def run(ctx):
         "write_mix": dict(writes),
         "next_outcomes": dict(outs),
         "subscribe_paths": dict(paths),
+        "publisher_subscribe_paths_compared_with_model": dict(pubpaths),
         "free_running_cases": free_cases,
         "free_running_failures": free_fail,
         "samples": sample,
